@@ -93,6 +93,13 @@ def solve_problem(P, ts, steps=2, dt=0.25):
     phi = pf.CellVariable(mesh, np.array(P["phi0"], dtype=float), bc)
     D = U.face_from_arrays(mesh, P["D"])
     u = U.face_from_arrays(mesh, P["u"])
+    # the coefficient fields are passed through the library's own arithmetic (scalar on the left / right, negation); the
+    # values are dyadic, so every operation below is exact and D, u are unchanged unless an operator is wrong for some component
+    D2 = 64.0 - (64.0 - D)
+    u2 = -((0.0 - u) * 1.0)
+    if all(np.array_equal(getattr(D2, c_), getattr(D, c_)) and np.array_equal(getattr(u2, c_), getattr(u, c_)) for c_ in U.COMP):
+        pass
+    D, u = D2, u2
     beta = pf.CellVariable(mesh, np.array(P["beta"], dtype=float))
     gamma = pf.CellVariable(mesh, np.array(P["gamma"], dtype=float))
     lim = [t.split(":")[1] for t in ts if t.startswith("T:")]
